@@ -633,6 +633,9 @@ impl Printf {
                 },
             }
         }
+        // Like -print: what this action wrote comes before the output of any
+        // command a later action runs.
+        out.flush().unwrap();
     }
 }
 
